@@ -7,6 +7,46 @@ use std::panic;
 
 mod scenarios;
 
+/// counting allocator: largest single request and number of bytes currently live / peak
+pub mod alloc_probe {
+    use std::alloc::{GlobalAlloc, Layout, System};
+    use std::sync::atomic::{AtomicUsize, Ordering};
+    pub static MAX_REQ: AtomicUsize = AtomicUsize::new(0);
+    pub static LIVE: AtomicUsize = AtomicUsize::new(0);
+    pub static PEAK: AtomicUsize = AtomicUsize::new(0);
+    pub struct Probe;
+    unsafe impl GlobalAlloc for Probe {
+        unsafe fn alloc(&self, l: Layout) -> *mut u8 {
+            MAX_REQ.fetch_max(l.size(), Ordering::Relaxed);
+            let live = LIVE.fetch_add(l.size(), Ordering::Relaxed) + l.size();
+            PEAK.fetch_max(live, Ordering::Relaxed);
+            unsafe { System.alloc(l) }
+        }
+        unsafe fn dealloc(&self, p: *mut u8, l: Layout) {
+            LIVE.fetch_sub(l.size(), Ordering::Relaxed);
+            unsafe { System.dealloc(p, l) }
+        }
+        unsafe fn realloc(&self, p: *mut u8, l: Layout, n: usize) -> *mut u8 {
+            MAX_REQ.fetch_max(n, Ordering::Relaxed);
+            if n > l.size() {
+                let live = LIVE.fetch_add(n - l.size(), Ordering::Relaxed) + (n - l.size());
+                PEAK.fetch_max(live, Ordering::Relaxed);
+            } else {
+                LIVE.fetch_sub(l.size() - n, Ordering::Relaxed);
+            }
+            unsafe { System.realloc(p, l, n) }
+        }
+    }
+    pub fn reset() {
+        MAX_REQ.store(0, Ordering::Relaxed);
+        PEAK.store(LIVE.load(Ordering::Relaxed), Ordering::Relaxed);
+    }
+    pub fn max_req() -> usize { MAX_REQ.load(Ordering::Relaxed) }
+}
+#[global_allocator]
+static GLOBAL: alloc_probe::Probe = alloc_probe::Probe;
+
+
 fn main() {
     let path = std::env::args().nth(1).expect("usage: verif_replay <witness.json>");
     let w: Value = serde_json::from_str(&std::fs::read_to_string(&path).expect("read witness")).expect("json");
